@@ -252,18 +252,22 @@ static void product(report& r)
         if (d == 1 && pat == 1 && r.want(base + " mpi stored"))
         {
             std::vector<sz> const list = {7, 0, 5, 2};
-            for (int kind = 0; kind != 3; ++kind)
+            // kinds 3 and 4: mpi_vegas / mpi_multi_channel again, in the same process, with the same types but three
+            // dimensions (what a call needs depends on run-time properties of the integrand)
+            for (int kind = 0; kind != 5; ++kind)
             {
                 int const world = 3;
+                sz const dm = kind >= 3 ? 3 : 1;
+                int const base_kind = kind >= 3 ? kind - 2 : kind;
                 std::vector<std::vector<E>> gens(world);
                 vf::mpi_env env(world);
-                vf::pl_map<T> map; map.split = {T(0.25), T(0.5), T(0.75)}; map.dims = 1;
+                vf::pl_map<T> map; map.split = {T(0.25), T(0.5), T(0.75)}; map.dims = dm;
                 auto out = env.run([&](int rank) {
                     gens[rank].clear();
                     gen_recorder<E> rec{&gens[rank]};
-                    if (kind == 0) (void) hep::mpi_plain(MPI_COMM_WORLD, hep::make_integrand<T>(pattern_fn<T>{pat}, 1), list, hep::make_plain_chkpt<T, E>(g0), rec);
-                    else if (kind == 1) (void) hep::mpi_vegas(MPI_COMM_WORLD, hep::make_integrand<T>(pattern_fn<T>{pat}, 1), list, hep::make_vegas_chkpt<T, E>(4, T(0.75), g0), rec);
-                    else (void) hep::mpi_multi_channel(MPI_COMM_WORLD, hep::make_multi_channel_integrand<T>(pattern_mc_fn<T>{pattern_fn<T>{pat}, false}, 1, map, 1, 3), list,
+                    if (base_kind == 0) (void) hep::mpi_plain(MPI_COMM_WORLD, hep::make_integrand<T>(pattern_fn<T>{pat}, dm), list, hep::make_plain_chkpt<T, E>(g0), rec);
+                    else if (base_kind == 1) (void) hep::mpi_vegas(MPI_COMM_WORLD, hep::make_integrand<T>(pattern_fn<T>{pat}, dm), list, hep::make_vegas_chkpt<T, E>(4, T(0.75), g0), rec);
+                    else (void) hep::mpi_multi_channel(MPI_COMM_WORLD, hep::make_multi_channel_integrand<T>(pattern_mc_fn<T>{pattern_fn<T>{pat}, false}, dm, map, dm, 3), list,
                         hep::make_multi_channel_chkpt<T, E>(std::vector<T>{T(0), T(1), T(3)}, T(0.0078125), T(0.5), g0), rec);
                 });
                 std::string const id = base + " mpi stored kind=" + std::to_string(kind);
@@ -273,7 +277,7 @@ static void product(report& r)
                 {
                     E ref; ref.seed(2024);
                     bool ok = gens[k].size() == list.size();
-                    for (sz i = 0; ok && i != list.size(); ++i) { ref.discard(list[i] * (kind == 2 ? 2 : 1) * usage); ok = gens[k][i] == ref; }
+                    for (sz i = 0; ok && i != list.size(); ++i) { ref.discard(list[i] * (base_kind == 2 ? dm + 1 : dm) * usage); ok = gens[k][i] == ref; }
                     if (!ok) { r.violate("stored-generator-not-advanced-by-prediction", id, id + ": rank " + std::to_string(k) + " stores a generator that differs from the initial one advanced by calls x numbers x usage"); break; }
                 }
                 r.distinct(vf::hash_str(id));
